@@ -258,6 +258,28 @@ func init() {
 				}
 				return
 			}
+			var rr struct {
+				Kind   string `json:"concurrent_recorders"`
+				Cached bool   `json:"cached"`
+				Dur    bool   `json:"durations"`
+				Par    int    `json:"goroutines"`
+			}
+			if json.Unmarshal(ctx.Replay, &rr) == nil && rr.Kind != "" {
+				ctx.Case(rr, "", "concurrent-recorders-"+rr.Kind, "")
+				for k := 0; k < 20; k++ {
+					f := ""
+					if rr.Kind == "first-use" {
+						f = c01FirstUse(rr.Cached, 400, rr.Par)
+					} else {
+						f = c01HistRecorders(rr.Cached, rr.Dur, 400, rr.Par)
+					}
+					if f != "" {
+						ctx.Fail("deliveries_add_up_to_increments", f, rr, nil)
+						return
+					}
+				}
+				return
+			}
 			var rp struct {
 				CtrYields bool `json:"ctr_yields"`
 			}
@@ -358,6 +380,26 @@ func init() {
 			f := c03Stress(ctx.R.U64(), k%2 == 1, k%4 >= 2)
 			ctx.Case(cs, "", "histogram-bucket-counts-overlapping-passes", "")
 			if f != "" {
+				ctx.Fail("deliveries_add_up_to_increments", "histogram bucket counts: "+f, cs, nil)
+				break
+			}
+		}
+		// only the recording side is concurrent: first use of one counter by several goroutines at once;
+		// samples into different buckets of a fresh histogram at once; then one pass
+		for k, nk := 0, ctx.N(4, 40); k < nk; k++ {
+			par := 2 + k%3*2
+			cs := map[string]interface{}{"concurrent_recorders": "first-use", "cached": k%2 == 1, "goroutines": par}
+			ctx.Case(cs, "", "concurrent-recorders-first-use", "")
+			if f := c01FirstUse(k%2 == 1, 400, par); f != "" {
+				ctx.Fail("deliveries_add_up_to_increments", f, cs, nil)
+				break
+			}
+		}
+		for k, nk := 0, ctx.N(4, 40); k < nk; k++ {
+			par := 2 + k%3*2
+			cs := map[string]interface{}{"concurrent_recorders": "histogram-buckets", "cached": k%2 == 1, "durations": k%4 >= 2, "goroutines": par}
+			ctx.Case(cs, "", "concurrent-recorders-histogram-buckets", "")
+			if f := c01HistRecorders(k%2 == 1, k%4 >= 2, 400, par); f != "" {
 				ctx.Fail("deliveries_add_up_to_increments", "histogram bucket counts: "+f, cs, nil)
 				break
 			}
